@@ -41,7 +41,7 @@ def draw_case(data, tier):
     else:
         sig = gen.draw_signature(data, d, kmax=2, min_types=1, max_types=4, cmax=3)
     n = len(sig)
-    return {"d": d, "shape": list(shape), "steps": steps, "sig": sig, "batch": data.draw(st.integers(1, 4), label="batch"),
+    return {"d": d, "shape": list(shape), "steps": steps, "sig": sig, "batch": data.draw(st.integers(1, 4), label="batch") if data.draw(st.integers(0, 7), label="big_batch") else data.draw(st.integers(5, 40), label="batch_big"),
             "order_x": list(data.draw(st.permutations(list(range(n))), label="order_x")), "order_y": list(data.draw(st.permutations(list(range(n))), label="order_y")),
             "jit_x": data.draw(st.booleans(), label="jit_x"), "jit_y": data.draw(st.booleans(), label="jit_y"), "g": gen.draw_g(data, d),
             "mode": data.draw(st.integers(0, len(MODES) - 1), label="mode"), "seed": data.draw(st.integers(0, 99999), label="seed"),
